@@ -1,3 +1,4 @@
+import _overlay
 import numpy as np, sys, faulthandler; faulthandler.enable()
 from pysph.base.utils import get_particle_array
 from pysph.base.nnps import ZOrderNNPS, LinkedListNNPS
